@@ -16,9 +16,11 @@
 (*   obs = [emitted, stopped, sub, recv, closed, len]                      *)
 (*         recv[s]   sequence of event numbers consumer s has read         *)
 (*         closed[s] 1 once consumer s has read "channel closed"           *)
-(*   act = [op, s, h, k, res]                                              *)
+(*   act = [op, s, h, s2, h2, k, res]   (s2, h2 only used by Subscribe2)   *)
 (*     Subscribe  s, h = requested height, k = tip the source reported,    *)
 (*                res ok | err | stopped | blocked                         *)
+(*     Subscribe2 two NewSubscription calls in flight together (s,h served  *)
+(*                first, then s2,h2), k = the tip both were told, res ok   *)
 (*     Emit       k = number of the last event of the burst, res ok|blocked*)
 (*     Read       s, h = items asked for, k = last item read,              *)
 (*                res ok | closed | empty                                  *)
@@ -62,6 +64,12 @@ AbsNext(a, act, o2) ==
          [a EXCEPT !.reg = @ \cup {[s |-> act.s, h |-> act.h, k |-> act.k]},
                    !.ended = IF a.stopped = 1 /\ ~IsEnded(a, act.s)
                              THEN @ \cup {<<act.s, a.emitted>>} ELSE @]
+    [] act.op = "Subscribe2" /\ act.res = "ok" ->
+         [a EXCEPT !.reg = @ \cup {[s |-> act.s, h |-> act.h, k |-> act.k],
+                                   [s |-> act.s2, h |-> act.h2, k |-> act.k]},
+                   !.ended = IF a.stopped = 1
+                             THEN @ \cup {<<x, a.emitted>> : x \in {y \in {act.s, act.s2} : ~IsEnded(a, y)}}
+                             ELSE @]
     [] act.op = "Emit" ->
          [a EXCEPT !.emitted = IF act.k > @ THEN act.k ELSE @]
     [] act.op = "Cancel" /\ act.res = "ok" ->
